@@ -7,7 +7,7 @@ from typing import Dict, List, Optional
 
 from sa.index import AnalysisError, ClassInfo
 from sa.report import Ctx
-from sa.sym import NONE, NOT, Summary, bind_args, conjuncts, show, walk
+from sa.sym import callkw, NONE, NOT, Summary, bind_args, conjuncts, show, walk
 
 from .aoef import AOEF_PKG, Aoef, relfile
 from .c01 import C01
@@ -229,6 +229,27 @@ class C18:
                                             "continues and writes a document instead of failing", e.lineno)
                 if not any(e.term == given and e.handlers for e in s.calls):
                     ctx.ok("R18.2", site, "write: relative_to error propagates (no enclosing handler)")
+                # R18.4: Path.relative_to is a lexical prefix test -- audio_dir/../private/x.wav passes it although the recording
+                # lies outside the directory.  Some rejection on this path must look at `..` in the (normalised) relative path.
+                rel_terms = {given} | {x for e in s.events for x in walk(e.term) if x[0] == "call" and x[1][0] == "attr" and x[1][2] == "relative_to"}
+                guard = None
+                for r in s.raises:
+                    conds = [c for c in conjuncts(r.live)]
+                    if any(self._dir_given(c) == 1 for c in conds) or True:
+                        for c in conds:
+                            ws = list(walk(c))
+                            if any(x == ("const", "..") or (x[0] == "const" and isinstance(x[1], str) and x[1].startswith("..")) for x in ws) \
+                                    and any(x in rel_terms for x in ws):
+                                guard = r
+                if guard is not None:
+                    ctx.ok("R18.4", f"{file}:{guard.lineno} {func}", "write: a relative path that climbs out of the directory (`..`) is rejected")
+                else:
+                    ctx.bad("R18.4", file, func, "Path(obj.path).relative_to(self.audio_dir) (lexical containment only)",
+                            "`relative_to` only compares path components as written: a recording at <audio_dir>/../private/x.wav lies outside "
+                            "the audio directory but passes, is stored as '../private/x.wav' and is loaded under another directory B as "
+                            "B/../private/x.wav -- outside B too. Saving must fail for it: no rejection on this path examines `..` in the "
+                            "(normalised) relative path", ret.lineno,
+                            witness={"audio_dir": "/data/audio", "recording": "/data/audio/../private/x.wav", "stored": "../private/x.wav"})
             else:
                 good = (given[0] == "bin" and given[1] == "/" and strip_path(given[2]) == d and strip_path(given[3]) == raw)
                 if good:
@@ -237,6 +258,33 @@ class C18:
                     ctx.bad("R18.2", file, func, f"path={show(given)[:80]} (audio_dir given)",
                             f"with an audio directory the loaded path is {show(given)[:80]}, not self.audio_dir / stored path",
                             ret.lineno)
+
+    # -------------------------------------------------------------- R18.5
+    def check_encoding(self):
+        """The document (recording paths with unicode file names included) is text: written and read without an explicit encoding it
+        goes through the locale's preferred encoding -- under a non-UTF-8 locale saving a non-ASCII path raises UnicodeEncodeError
+        after the target was opened (leaving an empty file) and a UTF-8 document cannot be loaded."""
+        ctx = self.ctx
+        for fn in ("save", "load"):
+            s = ctx.summ.of_func(AOEF_PKG, fn)
+            file = s.module.relpath
+            ios = [e for e in s.calls if (e.term[1][0] == "attr" and e.term[1][2] in ("write_text", "read_text")) or e.term[1] == ("builtin", "open")]
+            if not ios:
+                ctx.undec("R18.5", f"{file}:{s.node.lineno} {fn}", "no text read / write call found")
+                continue
+            for e in ios:
+                enc = callkw(e.term).get("encoding")
+                if e.term[1] == ("builtin", "open") and any(a == ("const", "rb") or a == ("const", "wb") for a in e.term[2]):
+                    ctx.ok("R18.5", f"{file}:{e.lineno} {fn}", "binary I/O")
+                elif enc is not None and enc[0] == "const" and isinstance(enc[1], str) and enc[1].lower().replace("_", "-") in ("utf-8", "utf8"):
+                    ctx.ok("R18.5", f"{file}:{e.lineno} {fn}", "text I/O with encoding='utf-8'")
+                else:
+                    ctx.bad("R18.5", file, fn, f"{show(e.term[1])[-40:]}(...) without encoding",
+                            f"io.aoef.{fn} {'writes' if fn == 'save' else 'reads'} the document with `{e.term[1][2] if e.term[1][0] == 'attr' else 'open'}` and no "
+                            f"explicit encoding: the text goes through the locale's preferred encoding, so under a non-UTF-8 locale a recording "
+                            f"path with a non-ASCII name cannot be saved (UnicodeEncodeError after the target was truncated) and a UTF-8 "
+                            f"document cannot be loaded -- the stored path then depends on the process environment, not on the recording",
+                            e.lineno, witness={"environment": "LC_ALL=C PYTHONUTF8=0", "file name": "café/文件.wav"})
 
     # -------------------------------------------------------------- R18.3
     def check_write_order(self):
@@ -271,11 +319,14 @@ def run(ctx: Ctx):
     ctx.rule("R18.1", "audio_dir flows from io.save/io.load into every collection's recording adapter", 17)
     ctx.rule("R18.2", "stored path relative iff directory given (error not swallowed); loaded path joined iff given", 5)
     ctx.rule("R18.3", "conversion completes before anything is written", 2)
+    ctx.rule("R18.4", "containment in the audio directory is decided on the normalised relative path (`..` rejected)", 1)
+    ctx.rule("R18.5", "the document is written and read as UTF-8 whatever the process locale", 2)
     c = C18(ctx)
     c.check_hops()
     c.check_constructors()
     c.check_path_terms()
     c.check_write_order()
+    c.check_encoding()
     return EXPLANATION, ASSUMPTIONS
 
 
